@@ -1,5 +1,5 @@
 (* Extraction of the C09 models (ExtrOcamlBasic only; N/Z/positive/nat/ascii/string stay Coq datatypes). *)
 Require Extraction.
 Require Import ExtrOcamlBasic.
-From NV Require Import gen.Tokens Front.ExprParser Front.Lexer.
-Extraction "../build/extract/ex_c09.ml" tokenize parser_tokens parse kind_code kind_of_code.
+From NV Require Import gen.Tokens Front.ExprParser Front.Lexer Front.ImportGraph.
+Extraction "../build/extract/ex_c09.ml" tokenize parser_tokens parse kind_code kind_of_code run_guarded run_unguarded.
